@@ -85,8 +85,27 @@ def small_valid(rng):
 
 def gen_stream(rng, flavour=None):
     """Returns list of pieces (label, text, am, tail_len)."""
-    flavour = flavour or rng.choice(["plain-junk", "imitating", "truncated", "mixed", "mixed", "only-junk"])
+    flavour = flavour or rng.choice(["plain-junk", "imitating", "truncated", "mixed", "mixed", "only-junk", "enclosed"])
     pieces = []
+    if flavour == "enclosed":
+        # a stray opener and, further on, its stray closer: together they form ONE well-formed but invalid element AROUND valid
+        # messages, which must be delivered all the same
+        tag, attrs = rng.choice([("newTextVector", 'device="a" name="b"'), ("setTextVector", 'device="a" name="b" state="Ok"'),
+                                 ("defSwitchVector", 'device="a" name="b" state="Ok" perm="rw" rule="AnyOfMany"'),
+                                 ("setNumberVector", 'device="a" name="b"'), ("message", 'device="a"'), ("getProperties", 'version="1.7"')])
+        if rng.random() < 0.3:
+            pieces.append(("junk", junk_piece(rng, False), None, 0))
+        pieces.append(("imitating", f"<{tag} {attrs}>", None, 0))
+        for _ in range(rng.choice([1, 1, 2, 3])):
+            am, text, tail = small_valid(rng)
+            pieces.append(("valid", text, am, tail))
+            if rng.random() < 0.3:
+                pieces.append(("junk", rng.choice([" ", "\n", "text between", "&amp;"]), None, 0))
+        pieces.append(("imitating", f"</{tag}>", None, 0))
+        if rng.random() < 0.5:
+            am, text, tail = small_valid(rng)
+            pieces.append(("valid", text, am, tail))
+        return flavour, pieces
     n = rng.choice([2, 3, 4, 6])
     for k in range(n):
         r = rng.random()
